@@ -2,10 +2,17 @@
 TLC: spec/Authz.tla exhaustive over configurations x requests (OnlyEntitled, RefusedOtherwise, EntitledServed,
 ListingExact, UntrustedHeadersInert, AddrIsTrue, PureAgrees) + negative controls. Binding (A): for each generated
 configuration a real server is built from real YAML and every request of the request space (6720) is driven
-through Handler(); status, calls reaching the (fake) token, listing and audited client address are compared."""
+through Handler(); status, calls reaching the (fake) token, listing and audited client address are compared.
+Policy mode (server.policyurl, internal/authmodel/opa.go): spec/PolicyAuth.tla (OnlyEntitled, EntitledServed, FailClosed,
+AskedOnlyWithCredential, InputFaithful, StatusRight, ListingExact, AuditNamesSubject; liveness Terminates) + 9 negative
+controls; every behaviour (request x policy answer) goes through a real server whose policy URL is a scripted stand-in
+for the Open Policy Agent, in both URL forms."""
 import json, os, concurrent.futures as cf
 from vlib.common import *
 
+PNEG = [("FailOpen", "OnlyEntitled"), ("IgnoreAllow", "OnlyEntitled"), ("HeaderFromAnyone", "StatusRight"), ("AskWithoutCredential", "AskedOnlyWithCredential"),
+        ("AliasOwnName", "OnlyEntitled"), ("ListHidden", "ListingExact"), ("Always403", "StatusRight"), ("AskForOpenEndpoints", "StatusRight"),
+        ("AnyScheme", "AskedOnlyWithCredential")]
 NEG = ["NoRoleCheck", "AliasOwnRoles", "TwoHops", "HeaderFromAnyone", "PrefixTrust6", "ListHidden", "IgnoreEKU", "TouchFirst"]
 
 
@@ -36,6 +43,44 @@ def _replay(run, vh, behs, label):
             run.violation(f["key"], f["desc"], f["replay"])
 
 
+def _policy(run, vh, t, rnd):
+    r = run_tlc("PolicyAuth_MC", "PolicyAuth_MC.cfg", timeout=900, want_beh=False)
+    tlc_must_pass(r, "PolicyAuth_MC")
+    run.add_tlc(r, "PolicyAuth mc (14 endpoint/name forms x 5 Authorization headers x 3 routes x 2 TLS x 3 header certificates x 18 policy answers; liveness Terminates)")
+    negs = PNEG if t == "thorough" else rnd.sample(PNEG, 4)
+    for v, inv in negs:
+        tlc_must_fail(run_tlc("PolicyAuth_MC", f"PolicyAuth_Neg_{v}.cfg", timeout=300, want_beh=False, workers=2), v, expect=inv)
+    run.cov["negative_controls"] += [v for v, _ in negs]
+    g = run_tlc("PolicyAuth_Gen", "PolicyAuth_Gen.cfg", timeout=900)
+    tlc_must_pass(g, "PolicyAuth_Gen")
+    run.add_tlc(g, "PolicyAuth gen")
+    if len(g.beh) < 20000:
+        raise NoVerdict(f"only {len(g.beh)} PolicyAuth behaviours")
+    d = scratch("c04p")
+    try:
+        p = os.path.join(d, "beh.jsonl")
+        with open(p, "w") as f:
+            for b in g.beh:
+                f.write(json.dumps(b) + "\n")
+        o = parse_vh_json(run_vh(vh, ["replay-policy", p], env={"VERIF_TMP": d}, timeout=1800), "replay-policy")
+    finally:
+        shutil.rmtree(d, ignore_errors=True)
+    if o["extra"].get("behaviours_read") != len(g.beh) and not o["failures"]:
+        raise NoVerdict(f"policy mode: replayed {o['extra']} of {len(g.beh)}")
+    kinds = {k: v for k, v in o["counters"].items() if k.startswith("pol_")}
+    if len(kinds) < 9 and not o["failures"]:
+        raise NoVerdict(f"policy answers covered: {kinds}")
+    run.cov["evaluations"] += o["evaluations"]
+    run.cov["distinct_nontrivial"] += o["distinct_nontrivial"]
+    run.cov["traces_validated_against_impl"] += o["evaluations"]
+    run.cov["policy_answers"] = kinds
+    for s in o["samples"][:1]:
+        run.sample(s)
+    for f in o["failures"]:
+        run.violation(f["key"], f["desc"], f["replay"])
+    return len(g.beh)
+
+
 def run(t):
     run = Run("C04", "model_checking", t)
     vh = build_vh()
@@ -59,14 +104,22 @@ def run(t):
         raise NoVerdict("no configurations generated")
     run.cov["configurations"] = len(g.beh)
     _replay(run, vh, g.beh, "authz")
+    npol = _policy(run, vh, t, rnd)
     run.cov["rule"] = (f"configurations = 3 key entries over 18 shapes (real x role subsets x hide, token-less, alias to any entry or "
                        f"to a missing one x hide) x client role choices, sampled by hash % {mod} = {sel} ({len(g.beh)} of ~35k); for each, "
                        "ALL 6720 requests (endpoint x key name x peer {untrusted, IPv4 proxy, its classful neighbour, bare-IPv6 proxy, a host in its /32} x X-Forwarded-For x TLS identity x "
                        "Ssl-Client-Cert identity incl. malformed) through the real Handler; expected outcome computed by the "
-                       "specification; non-trivial = request succeeds or comes from the trusted proxy")
+                       "specification; non-trivial = request succeeds or comes from the trusted proxy. Policy mode: all "
+                       f"{npol} behaviours of PolicyAuth (6 endpoints x 5 key names x Authorization header {{absent, Bearer, bearer, Basic, empty}} x route {{direct, trusted proxy, "
+                       "stranger sending proxy headers}} x TLS certificate x header certificate incl. malformed x policy answer {allow with 2 role sets x 5 allowed_keys sets, four kinds "
+                       "of deny carrying grants that must mean nothing, undefined decision, HTTP 500, connection reset, truncated JSON}) on a real server with the built-in client "
+                       "table granting both certificates everything; compared: status, policy asked or not and the input it received (path, key, token, fingerprint, chain, request "
+                       "shape for package and default-decision URLs), token calls, listing, audit record (subject, issuer, decision id, client address)")
     run.cov["exhaustive"] = False
     run.assumptions += ["token cache disabled (tokencacheseconds: -1) so that calls reaching the token are observable per request",
-                        "policy (OPA) mode not covered; configurations with two matching CA clients excluded (map order decides)",
+                        "configurations with two matching CA clients excluded (map order decides)",
+                        "policy mode: one fixed key configuration (real, alias, hidden); the policy service is a stand-in that answers what the behaviour says - what a real OPA would decide is outside relic; a policy service that never answers is not scripted (the request then lasts until the caller gives up)",
+                        "policy mode: allowed_keys is matched against the name of the entry an alias resolves to (as doc/opa.md's 'the key's name' is implemented); an alias name in allowed_keys grants nothing",
                         "alias entries carry no roles (server.New refuses such configurations at start-up)"]
     return run.finish()
 
